@@ -79,10 +79,15 @@ theorem AwFrom.notifyResult (w : WorkerSt) (a t : Pid) (r : Res) :
     unfold WorkerSt.notifyFailure
     split
     · split
-      · exact (AwFrom.modProc w a (fun x => { x with awaitFailed := sinsert x.awaitFailed t }) _ (fun y t' v _ hm => Or.inl hm)).trans
-          (AwFrom.wakeSelecting _ a _)
+      · refine (AwFrom.modProc w a _ _ ?_).trans (AwFrom.wakeSelecting _ a _)
+        intro y t' v _ hm; exact Or.inl hm
       · exact AwFrom.refl w _
     · exact AwFrom.refl w _
+
+theorem AwFrom.notifyPending (w : WorkerSt) (a t : Pid) (e : Pid → Pid → Val → Prop) : AwFrom w (w.notifyPending a t) e := by
+  unfold WorkerSt.notifyPending
+  refine AwFrom.modProc w a _ _ ?_
+  intro y t' v _ hm; exact Or.inl hm
 
 theorem AwFrom.applyResults (a : Pid) : ∀ (rs : Results) (w : WorkerSt),
     AwFrom w (applyResults w a rs) (fun p t v => p = a ∧ (t, some (Res.ok v)) ∈ rs)
@@ -92,9 +97,10 @@ theorem AwFrom.applyResults (a : Pid) : ∀ (rs : Results) (w : WorkerSt),
     refine AwFrom.trans ((AwFrom.notifyResult w a t0 r).weaken ?_) ((AwFrom.applyResults a rest _).weaken ?_)
     · rintro p t v ⟨rfl, rfl, rfl⟩; exact ⟨rfl, by simp⟩
     · rintro p t v ⟨rfl, h⟩; exact ⟨rfl, List.mem_cons_of_mem _ h⟩
-  | (_, none) :: rest, w => by
+  | (t0, none) :: rest, w => by
     unfold QM.Sys.applyResults
-    exact (AwFrom.applyResults a rest w).weaken (fun p t v ⟨h1, h2⟩ => ⟨h1, List.mem_cons_of_mem _ h2⟩)
+    exact (AwFrom.notifyPending w a t0 _).trans
+      ((AwFrom.applyResults a rest _).weaken (fun p t v ⟨h1, h2⟩ => ⟨h1, List.mem_cons_of_mem _ h2⟩))
 
 theorem AwFrom.foldl {α : Type} {e : Pid → Pid → Val → Prop} (f : WorkerSt → α → WorkerSt) (hf : ∀ w a, AwFrom w (f w a) e) :
     ∀ (l : List α) (w : WorkerSt), AwFrom w (l.foldl f w) e
@@ -131,12 +137,14 @@ theorem slice_awaiting (prog : Prog) (now : Nat) (self : Pid) : ∀ (fuel : Nat)
               · exact h1
               · cases h2
           exact this _ _ h
-      · dsimp only at h
-        split at h
-        · have := slice_awaiting prog now self fuel _ t v h
-          exact (List.mem_filter.mp this).1
+      · split at h
         · exact h
-        · exact h
+        · dsimp only at h
+          split at h
+          · have := slice_awaiting prog now self fuel _ t v h
+            exact (List.mem_filter.mp this).1
+          · exact h
+          · exact h
 
 /-! ### the invariant -/
 
